@@ -681,7 +681,9 @@ def forall(lo, hi, fn):
             r = both(r, fn(j))
         return r
     st = cur()
-    if st.capture is None:
+    if st.capture is None and getattr(st.cfg, "forall_range_check", True):
+        # (a shortcut only: an empty range gives a vacuous quantifier anyway; a contract whose path conditions
+        # are quantifier-heavy switches it off with `forall_range_check = False` because the check itself is slow)
         r0, _m = st._check(_z(lo) < _z(hi), 1000)
         if r0 == z3.unsat:
             return True  # empty range on this path
